@@ -382,61 +382,68 @@ impl Protocol for V5 {
         }
 
         let packet = packet.freeze();
-        let packet = match packet_type {
-            PacketType::Connect => {
-                let (connect, properties, will, willproperties, login) =
-                    connect::read(fixed_header, packet)?;
-                Packet::Connect(connect, properties, will, willproperties, login)
-            }
-            PacketType::Publish => {
-                let (publish, properties) = publish::read(fixed_header, packet)?;
-                Packet::Publish(publish, properties)
-            }
-            PacketType::PubAck => {
-                let (puback, properties) = puback::read(fixed_header, packet)?;
-                Packet::PubAck(puback, properties)
-            }
-            PacketType::Subscribe => {
-                let (subscribe, properties) = subscribe::read(fixed_header, packet)?;
-                Packet::Subscribe(subscribe, properties)
-            }
-            PacketType::SubAck => {
-                let (suback, properties) = suback::read(fixed_header, packet)?;
-                Packet::SubAck(suback, properties)
-            }
-            PacketType::Unsubscribe => {
-                let (unsubscribe, properties) = unsubscribe::read(fixed_header, packet)?;
-                Packet::Unsubscribe(unsubscribe, properties)
-            }
-            PacketType::PingReq => Packet::PingReq(PingReq),
-            PacketType::PingResp => Packet::PingResp(PingResp),
-            PacketType::Disconnect => {
-                let (disconnect, properties) = disconnect::read(fixed_header, packet)?;
-                Packet::Disconnect(disconnect, properties)
-            }
-            PacketType::PubRec => {
-                let (pubrec, properties) = pubrec::read(fixed_header, packet)?;
-                Packet::PubRec(pubrec, properties)
-            }
-            PacketType::PubRel => {
-                let (pubrel, properties) = pubrel::read(fixed_header, packet)?;
-                Packet::PubRel(pubrel, properties)
-            }
-            PacketType::PubComp => {
-                let (pubcomp, properties) = pubcomp::read(fixed_header, packet)?;
-                Packet::PubComp(pubcomp, properties)
-            }
-            PacketType::ConnAck => {
-                let (connack, properties) = connack::read(fixed_header, packet)?;
-                Packet::ConnAck(connack, properties)
-            }
-            PacketType::UnsubAck => {
-                let (unsuback, properties) = unsuback::read(fixed_header, packet)?;
-                Packet::UnsubAck(unsuback, properties)
-            }
+        let parse = move || -> Result<Packet, Error> {
+            Ok(match packet_type {
+                PacketType::Connect => {
+                    let (connect, properties, will, willproperties, login) =
+                        connect::read(fixed_header, packet)?;
+                    Packet::Connect(connect, properties, will, willproperties, login)
+                }
+                PacketType::Publish => {
+                    let (publish, properties) = publish::read(fixed_header, packet)?;
+                    Packet::Publish(publish, properties)
+                }
+                PacketType::PubAck => {
+                    let (puback, properties) = puback::read(fixed_header, packet)?;
+                    Packet::PubAck(puback, properties)
+                }
+                PacketType::Subscribe => {
+                    let (subscribe, properties) = subscribe::read(fixed_header, packet)?;
+                    Packet::Subscribe(subscribe, properties)
+                }
+                PacketType::SubAck => {
+                    let (suback, properties) = suback::read(fixed_header, packet)?;
+                    Packet::SubAck(suback, properties)
+                }
+                PacketType::Unsubscribe => {
+                    let (unsubscribe, properties) = unsubscribe::read(fixed_header, packet)?;
+                    Packet::Unsubscribe(unsubscribe, properties)
+                }
+                PacketType::PingReq => Packet::PingReq(PingReq),
+                PacketType::PingResp => Packet::PingResp(PingResp),
+                PacketType::Disconnect => {
+                    let (disconnect, properties) = disconnect::read(fixed_header, packet)?;
+                    Packet::Disconnect(disconnect, properties)
+                }
+                PacketType::PubRec => {
+                    let (pubrec, properties) = pubrec::read(fixed_header, packet)?;
+                    Packet::PubRec(pubrec, properties)
+                }
+                PacketType::PubRel => {
+                    let (pubrel, properties) = pubrel::read(fixed_header, packet)?;
+                    Packet::PubRel(pubrel, properties)
+                }
+                PacketType::PubComp => {
+                    let (pubcomp, properties) = pubcomp::read(fixed_header, packet)?;
+                    Packet::PubComp(pubcomp, properties)
+                }
+                PacketType::ConnAck => {
+                    let (connack, properties) = connack::read(fixed_header, packet)?;
+                    Packet::ConnAck(connack, properties)
+                }
+                PacketType::UnsubAck => {
+                    let (unsuback, properties) = unsuback::read(fixed_header, packet)?;
+                    Packet::UnsubAck(unsuback, properties)
+                }
+            })
         };
 
-        Ok(packet)
+        // the whole frame is here: running out of bytes inside it means the packet is malformed,
+        // not that more bytes should be awaited
+        parse().map_err(|e| match e {
+            Error::InsufficientBytes(_) => Error::MalformedPacket,
+            e => e,
+        })
     }
 
     fn write(&self, packet: Packet, buffer: &mut BytesMut) -> Result<usize, Error> {
